@@ -191,9 +191,25 @@ def explore_program(p, backend, root, differential=True):
     return viol, nb, states
 
 
+# the step templates of the first version of this check: depth 3 is explored over these (every
+# template added later, after seeded changes, takes part up to depth 2)
+BASE = ['obj', 'exe', 'slib', 'shlib', 'vshlib', 'step1', 'step2', 'stepao', 'step2ao', 'stepcmd', 'copy', 'alias',
+        'command', 'test', 'testarg', 'default', 'install']
+
+
+def all_programs(k):
+    """k = 2: every program with <= 2 steps over the full alphabet; k = 3: those plus every program
+    with 3 steps over BASE (de-duplicated on the script text, simplest first)"""
+    progs = projgen.programs(2)
+    if k >= 3:
+        seen = {p.script() for p in progs}
+        progs = progs + [p for p in projgen.programs(3, BASE) if p.script() not in seen]
+    return progs
+
+
 def _shard(arg):
     k, idxs, thorough = arg
-    progs = projgen.programs(k)
+    progs = all_programs(k)
     root = os.path.join(core.worker_dir(), 'c03')
     res = []
     for i in idxs:
@@ -206,7 +222,7 @@ def _shard(arg):
 
 def run(ctx):
     k = 3 if ctx.thorough else 2
-    progs = projgen.programs(k)
+    progs = all_programs(k)
     idxs = core.seeded_order(range(len(progs)), ctx.seed)
     per = max(1, len(idxs) // (8 * core.NCPU))
     shards = [(k, ch, ctx.thorough) for ch in core.chunks(idxs, per)]
@@ -244,12 +260,13 @@ def run(ctx):
         states=states, transitions=builds, traces_validated_against_impl=builds,
         samples=[dict(script=progs[len(progs) // 3].script()), dict(script=progs[-1].script())],
         evaluations=builds, distinct_nontrivial=len(progs),
-        rule='all %d well-typed programs with <= %d steps over the step alphabet %r, both backends; per program: '
-             'full build, repeated build, one incremental build per single-file modification of every source / '
-             'header / data file / product (state = (program, modified file)), each compared with the observed '
-             'downstream set and (for inputs) with a from-scratch build; default/all/alias/test/install/command '
-             'goals from a clean tree against the closure of their declared members'
-             % (len(progs), k, projgen.FULL),
+        rule=('all %d well-typed programs: <= 2 steps over the step alphabet %r' % (len(progs), projgen.FULL)) + (
+            ', plus 3 steps over the templates %r' % (BASE,) if k >= 3 else '') + (
+            '; both backends; per program: '
+            'full build, repeated build, one incremental build per single-file modification of every source / '
+            'header / data file / product (state = (program, modified file)), each compared with the observed '
+            'downstream set and (for inputs) with a from-scratch build; default/all/alias/test/install/command '
+            'goals from a clean tree against the closure of their declared members'),
         exhaustive=True, programs=len(progs), program_backend_rejected_at_configure=rejected,
         builds=builds)
     ctx.assumptions += [
@@ -261,7 +278,7 @@ def run(ctx):
 
 def replay(rec):
     c = rec['case']
-    progs = projgen.programs(c['k'])
+    progs = all_programs(c['k'])
     p = progs[c['index']]
     print(p.script())
     v, nb, st = explore_program(p, c['backend'], os.path.join(core.worker_dir(), 'c03r'))
